@@ -22,6 +22,11 @@ Mechanical edits applied to extracted text (and nothing else; all are logged):
      definition matching `P` against the referent, and rustc only accepts by-value bindings under `&P` for `Copy`
      data, so the rewritten match selects the same arm and binds the same values; a component WITHOUT `&` is only
      accepted when it binds nothing (`_`, a unit variant, `V(_)`, `V(..)`), otherwise the unit is UNDECIDED.
+  I5 (opt-in, `closures=<label>[,<label>..]` on a //@FN line) closure annotation in place: the k-th closure that is
+     the first argument of a call, `f(|x| <expr>)`, becomes `f(<header from the template> { <expr> })`, where the
+     header restates the SAME parameter names with their types, names the result and gives the closure's `ensures`
+     (Verus infers no specification for a closure).  The closure's body text is untouched; a closure whose parameter
+     names differ from the template's, or a different number of such closures, makes the unit UNDECIDED.
   I1 the unit's contract block is inserted between signature and body
   I2 the result type `-> T` is rewritten to `-> (r: T)` so the contract can name it
   I3 loop invariants (`loopinv=` labels) are inserted between a loop header and its body;
@@ -50,6 +55,7 @@ REFUTATION_MSGS = (
     "unreachable code reached",
     "failed this postcondition",
     "possible out-of-bounds",
+    "unable to prove post-condition of closure",
 )
 
 DROP_ATTR = re.compile(r"^\s*#\[(?:tracing::)?(?:instrument|must_use|inline|allow|derive|doc|cfg_attr\(kani)\b")
@@ -273,6 +279,37 @@ def _deref_ref_patterns(text: str, dropped: list) -> str:
         raise Unsupported("refpat=deref: the match has no reference patterns any more (template out of date)")
     dropped.append("D4: %d reference patterns `&P` -> `P`, scrutinee `%s` -> `%s`" % (n_removed, re.sub(r"\s+", " ", text[i:j + 1]), scrut))
     return text[:i] + scrut + text[j + 1:k + 1] + "".join(out) + text[end:]
+
+
+def _annotate_closures(fn_text: str, headers: list) -> str:
+    """I5, see the module docstring."""
+    body_start = fn_text.index("{")
+    spots = [m for m in re.finditer(r"\(\s*\|([^|]*)\|", fn_text) if m.start() > body_start]
+    if len(spots) != len(headers):
+        raise Unsupported(f"closures restructured: the unit annotates {len(headers)} closure argument(s), the function now has {len(spots)}")
+    for m, header in reversed(list(zip(spots, headers))):
+        names = [x.strip().split(":")[0].strip() for x in m.group(1).split(",") if x.strip()]
+        hm = re.match(r"\s*\|([^|]*)\|", header)
+        hnames = [x.strip().split(":")[0].strip() for x in hm.group(1).split(",") if x.strip()] if hm else None
+        if hnames != names:
+            raise Unsupported(f"closure parameters changed: the unit annotates `|{', '.join(hnames or [])}|`, the function has `|{', '.join(names)}|`")
+        # body of the closure: up to the `)` that closes the call
+        depth, q = 0, m.end()
+        while True:
+            ch = fn_text[q]
+            if ch in "([{":
+                depth += 1
+            elif ch in ")]}":
+                if depth == 0:
+                    break
+                depth -= 1
+            q += 1
+        expr = fn_text[m.end():q].strip()
+        if expr.startswith("{"):
+            raise Unsupported("closure with a block body: not annotated by I5")
+        bar = fn_text.index("|", m.start())
+        fn_text = fn_text[:bar] + header.strip() + " { " + expr + " }" + fn_text[q:]
+    return fn_text
 
 
 def _insert_contract(fn_text: str, contract: str, binder: str = "r") -> str:
@@ -521,6 +558,9 @@ def assemble(repo_dir: str, unit: dict, out_path: str):
             # is inserted after the k-th `loop` / `while ..` header of the function body
             if "loopinv" in kv:
                 text2 = _insert_loop_invariants(text2, [contracts[l] for l in kv["loopinv"].split(",")], kv.get("loopform"))
+            if "closures" in kv:
+                text2 = _annotate_closures(text2, [contracts[l] for l in kv["closures"].split(",")])
+                dropped.append("I5: %d closure argument(s) annotated in place (types, result name, ensures; body text untouched)" % len(kv["closures"].split(",")))
             if "fnattrs" in kv:
                 text2 = kv["fnattrs"] + "\n" + text2
             start_line = len(out) + 1
